@@ -30,6 +30,11 @@ CLAIMED = {
         technique='deterministic simulation: seeded operation-and-fault histories (rejected element in a batch, raising user handler, scoped flags that remove phases of a mutation) over forests of symbolic trees; structural invariant and identity diff evaluated on the real forest after every step',
         text='Seeded exploration of histories of ~45 kinds of public operations at arbitrary nodes of 1-3 trees, with interruption faults; after every step every reachable node must have the container that stores it as parent, the true key sequence as path, be found by looking that path up, appear once in the forest, and every node the step removed must no longer claim a live container as parent. No predictive model: the invariant is evaluated on the real forest.',
         note='Trusted: the walk over sym_items() and identity maps. One caller thread (pyglove documents no thread safety for shared trees). Cycles (inserting a root into its own subtree) excluded. After an injected handler exception re-indexing of that root is not asserted until its next successful notification.'),
+    'C02': dict(
+        engine='symtree', design='§2',
+        technique='deterministic simulation (history engine): seeded operation histories on spec-less pg.List/pg.Dict, step-wise refinement against Python list/dict driven by the same operations (the interpreter is the reference model)',
+        text='Seeded exploration of histories over the full list/dict API (positive/negative/out-of-range indices, slices with steps, in-place operators, update/setdefault/popitem, rebind) at arbitrary nesting depth; after every step the result, the exception class and every read-back (iteration, len, in, slicing, ==, keys order, to_json) must agree with a plain Python twin. No schedule or fault dimension exists for this property; what the technique contributes is the history search, the executable reference and minimised replays.',
+        note='Trusted: CPython list/dict as the reference. Documented extensions are modelled (index past the end appends, Insertion inserts, nested plain containers become symbolic, no aliasing of one child in two slots). Batches whose outcome depends on rebind\'s own ordering rules (overlapping paths, several writes into one container) are not judged.'),
 }
 
 NOT_APPLICABLE = {}
